@@ -341,7 +341,7 @@ def plan_text(cwd, plan, stdout, stderr):
         for k, v in r.items():
             if k == "id":
                 continue
-            if k in ("path", "under", "suffix"):
+            if k in ("path", "under", "suffix", "target"):
                 parts.append("%s=%s" % (k, hexs(v)))
             elif k == "iocmd":
                 parts.append("iocmd=0x%x" % v)
